@@ -1,6 +1,305 @@
-"""Symbolic-length lists (list algebra). See DESIGN.md 2.2."""
-from .values import Unsupported
+"""Symbolic-length lists: a small list algebra for E1's prove mode (DESIGN.md 2.2).
+
+A list is a concatenation of segments of symbolic length:
+
+  Base    an input list X of length n with elements X(k) (uninterpreted function; elements may carry attributes)
+  Perm    the result sigma of `np.argsort(X)`: a permutation of range(n) that sorts X (external contract); its axioms are
+          instantiated at every index term that is accessed
+  Gather  [X[sigma[k]] for k in range(n)]
+  Host    a concrete python list
+  Map     per-element function of another segment (e.g. len(d) for d in ...); only `sum` consumes it
+
+Identities used (textbook facts, listed as assumptions L-LIST): len(concat) = sum of lens; drop(concat(A, B), len A) = B;
+sum over concat = sum of sums; sum(g o Gather(X, sigma)) = sum(g o X) for a permutation sigma of range(len X).
+Every side condition is discharged by the solver under the current path condition; when it is not provable the operation
+is `Unsupported` and the obligation stays undecided (the structurally bounded contracts decide it instead).
+"""
+
+from __future__ import annotations
+
+import ast
+
+import z3
+
+from . import models
+from .values import SV, EngineError, Unsupported, fresh_name
+
+
+class Elem:
+    """A symbolic element of a Base list of opaque objects: attribute values are functions of (base, index)."""
+
+    def __init__(self, base, k):
+        self.base = base
+        self.k = k  # z3 Int term
+
+    def __repr__(self):
+        return f"{self.base.name}[{self.k}]"
+
+
+class Base:
+    kind = "base"
+
+    def __init__(self, name, n: SV, sort="int", attrs=()):
+        self.name = name
+        self.n = n
+        self.sort = sort  # 'int' | 'str' | 'obj'
+        self.attrs = tuple(attrs)  # for 'obj': names of integer attributes (e.g. 'len')
+        zs = {"int": z3.IntSort(), "str": z3.StringSort(), "obj": z3.IntSort()}[sort]
+        self.f = z3.Function(f"{name}_elem", z3.IntSort(), zs)
+        self.attr_f = {a: z3.Function(f"{name}_{a}", z3.IntSort(), z3.IntSort()) for a in self.attrs}
+        self.sums = {}
+
+    def length(self):
+        return self.n.z
+
+    def at(self, interp, k):
+        if self.sort == "obj":
+            return Elem(self, k)
+        return SV(self.f(k), self.sort)
+
+    def total(self, attr):
+        """Uninterpreted value of sum(attr(X[k]) for k < n)."""
+        if attr not in self.sums:
+            self.sums[attr] = z3.Int(f"sum_{attr}_{self.name}")
+        return self.sums[attr]
+
+
+class Perm:
+    kind = "perm"
+
+    def __init__(self, interp, src: Base):
+        self.src = src
+        self.n = src.n
+        self.name = fresh_name(f"argsort_{src.name}")
+        self.f = z3.Function(self.name, z3.IntSort(), z3.IntSort())
+        self.seen = []
+
+    def length(self):
+        return self.n.z
+
+    def at(self, interp, k):
+        """sigma(k) with the permutation/sortedness facts instantiated at k."""
+        n = self.n.z
+        s = self.f(k)
+        ctx = interp.ctx
+        ctx.assume(z3.Implies(z3.And(k >= 0, k < n), z3.And(s >= 0, s < n)))
+        if self.src.sort == "int":
+            X = self.src.f
+            ctx.assume(z3.Implies(z3.And(k >= 0, k + 1 < n), X(s) <= X(self.f(k + 1))))
+            ctx.assume(z3.Implies(z3.And(k - 1 >= 0, k < n), X(self.f(k - 1)) <= X(s)))
+        for j in self.seen:  # injectivity on accessed indices
+            ctx.assume(z3.Implies(z3.And(k >= 0, k < n, j >= 0, j < n, k != j), s != self.f(j)))
+        self.seen.append(k)
+        return PermIndex(self, k, SV(s, "int"))
+
+
+class PermIndex:
+    """The value sigma(k): behaves as an int index; keeps its provenance for Gather recognition."""
+
+    def __init__(self, perm, k, sv):
+        self.perm = perm
+        self.k = k
+        self.sv = sv
+
+
+class Gather:
+    kind = "gather"
+
+    def __init__(self, src: Base, perm: Perm):
+        self.src = src
+        self.perm = perm
+
+    def length(self):
+        return self.perm.n.z
+
+    def at(self, interp, k):
+        pi = self.perm.at(interp, k)
+        return self.src.at(interp, pi.sv.z)
+
+
+class Host:
+    kind = "host"
+
+    def __init__(self, items):
+        self.items = list(items)
+
+    def length(self):
+        return z3.IntVal(len(self.items))
+
+
+class SList(models.SList):
+    def __init__(self, segs):
+        self.segs = [s for s in segs if not (isinstance(s, Host) and not s.items)]
+
+    @property
+    def length(self):
+        tot = z3.IntVal(0)
+        for s in self.segs:
+            tot = tot + s.length()
+        return SV(z3.simplify(tot), "int")
+
+    def __repr__(self):
+        return "SList<" + " ++ ".join(getattr(s, "name", None) or f"{s.kind}({getattr(getattr(s, 'src', None), 'name', '')})" for s in self.segs) + ">"
+
+    # ---- queries that need the solver
+    def _prefix(self, j):
+        tot = z3.IntVal(0)
+        for s in self.segs[:j]:
+            tot = tot + s.length()
+        return tot
+
+    def getitem(self, interp, idx):
+        if isinstance(idx, slice):
+            return self._slice(interp, idx)
+        if isinstance(idx, PermIndex):
+            if len(self.segs) == 1 and isinstance(self.segs[0], Base):
+                same = self.segs[0] is idx.perm.src or interp.ctx.valid(self.segs[0].length() == idx.perm.n.z)[0] == "proved"
+                if same:
+                    return GatherElem(self.segs[0], idx.perm, idx.k, self.segs[0].at(interp, idx.sv.z))
+            idx = idx.sv
+        if isinstance(idx, int):
+            idx = SV(z3.IntVal(idx), "int")
+        if not (isinstance(idx, SV) and idx.kind == "int"):
+            raise Unsupported("index into a symbolic-length list")
+        ctx = interp.ctx
+        for j, seg in enumerate(self.segs):
+            lo = self._prefix(j)
+            hi = lo + seg.length()
+            st, _ = ctx.valid(z3.And(idx.z >= lo, idx.z < hi))
+            if st == "proved":
+                k = z3.simplify(idx.z - lo)
+                if isinstance(seg, Host):
+                    kk = z3.simplify(k)
+                    if z3.is_int_value(kk):
+                        return seg.items[kk.as_long()]
+                    raise Unsupported("symbolic index into a concrete segment")
+                return seg.at(interp, k)
+        raise Unsupported(f"cannot place index {idx.z} in {self!r}")
+
+    def _slice(self, interp, sl):
+        if sl.step is not None:
+            raise Unsupported("slice step on a symbolic-length list")
+        segs = self.segs
+        ctx = interp.ctx
+
+        def boundary(v, default):
+            if v is None:
+                return default
+            vz = models.to_z3(v, "int") if not isinstance(v, PermIndex) else v.sv.z
+            for j in range(len(segs) + 1):
+                st, _ = ctx.valid(vz == self._prefix(j))
+                if st == "proved":
+                    return j
+            raise Unsupported(f"slice bound {vz} is not provably a segment boundary of {self!r}")
+
+        a = boundary(sl.start, 0)
+        b = boundary(sl.stop, len(segs))
+        return SList(segs[a:b])
+
+    def sum(self, interp, start=0):
+        raise Unsupported("sum of a symbolic-length list of scalars")
+
+    def contains(self, interp, x):
+        raise Unsupported("'in' on a symbolic-length list")
+
+    def concrete_items(self, interp):
+        if all(isinstance(s, Host) for s in self.segs):
+            return [x for s in self.segs for x in s.items]
+        raise Unsupported("iteration over a symbolic-length list")
+
+
+class GatherElem:
+    """X[sigma[k]] as produced inside a comprehension over the argsort result."""
+
+    def __init__(self, src, perm, k, value):
+        self.src = src
+        self.perm = perm
+        self.k = k
+        self.value = value
+
+
+class MapSList(models.SList):
+    """[g(x) for x in L] where g(x) is an integer attribute of the element (only sum() consumes it)."""
+
+    def __init__(self, src: SList, attr):
+        self.src = src
+        self.attr = attr
+
+    @property
+    def length(self):
+        return self.src.length
+
+    def sum(self, interp, start=0):
+        tot = models.to_z3(start, "int")
+        for seg in self.src.segs:
+            if isinstance(seg, Base):
+                tot = tot + seg.total(self.attr)
+            elif isinstance(seg, Gather):
+                # L-PERMSUM: sigma is a permutation of range(len src)
+                tot = tot + seg.src.total(self.attr)
+                interp.ctx.ghost.setdefault("list_lemmas", set()).add("sum(g o gather(X, perm)) = sum(g o X)")
+            elif isinstance(seg, Host):
+                for it in seg.items:
+                    tot = tot + models.to_z3(models._len(interp, it), "int")
+            else:
+                raise Unsupported("sum over this segment kind")
+        interp.ctx.ghost.setdefault("list_lemmas", set()).add("sum over concat = sum of sums")
+        return SV(z3.simplify(tot), "int")
+
+
+# ------------------------------------------------------------------------------- operations used by the interpreter
+def as_slist(v):
+    if isinstance(v, SList):
+        return v
+    if isinstance(v, list | tuple):
+        return SList([Host(v)])
+    raise Unsupported(f"cannot view {type(v).__name__} as a symbolic-length list")
 
 
 def binop(interp, op, a, b):
-    raise Unsupported("symbolic-length list operation")
+    if op is ast.Add:
+        return SList(as_slist(a).segs + as_slist(b).segs)
+    raise Unsupported("operation on a symbolic-length list")
+
+
+def argsort(interp, xs):
+    if isinstance(xs, SList) and len(xs.segs) == 1 and isinstance(xs.segs[0], Base):
+        interp.ctx.ghost.setdefault("externals", set()).add("np.argsort: returns a permutation of range(n) that sorts its argument")
+        return SList([Perm(interp, xs.segs[0])])
+    raise Unsupported("argsort of a composite symbolic list")
+
+
+def comprehension(interp, node, env, it):
+    """[elt for x in L] for the two shapes used on symbolic lists: gathers through an argsort result, and integer
+    attributes of the elements."""
+    from .interp import Env
+
+    if len(node.generators) != 1 or node.generators[0].ifs:
+        raise Unsupported("comprehension shape over a symbolic-length list")
+    g = node.generators[0]
+    if not isinstance(g.target, ast.Name):
+        raise Unsupported("comprehension target over a symbolic-length list")
+    if len(it.segs) == 1 and isinstance(it.segs[0], Perm):
+        perm = it.segs[0]
+        k = z3.Int(fresh_name("k"))
+        e2 = Env(parent=env)
+        e2.set(g.target.id, perm.at(interp, k))
+        v = interp.eval(node.elt, e2)
+        if isinstance(v, GatherElem) and v.perm is perm and v.k is k:
+            return SList([Gather(v.src, perm)])
+        raise Unsupported("comprehension over an argsort result that is not a gather X[i]")
+    # per-element integer attribute: len(d)
+    if isinstance(node.elt, ast.Call) and isinstance(node.elt.func, ast.Name) and node.elt.func.id == "len" and len(node.elt.args) == 1 \
+            and isinstance(node.elt.args[0], ast.Name) and node.elt.args[0].id == g.target.id:
+        return MapSList(it, "len")
+    raise Unsupported("comprehension body over a symbolic-length list")
+
+
+def provenance(lst: SList, j):
+    """(kind, src base, perm) of segment j."""
+    s = lst.segs[j]
+    if isinstance(s, Gather):
+        return ("gather", s.src, s.perm)
+    if isinstance(s, Base):
+        return ("base", s, None)
+    return (s.kind, None, None)
